@@ -208,9 +208,9 @@ func configs() []cfg {
 		starts = starts[:5]
 	}
 	for _, iv := range ivs {
-		offs := []time.Duration{0, 3 * time.Second, iv - 1, iv, iv + 2*time.Second}
+		offs := []time.Duration{0, 3 * time.Second, iv - 1, iv, iv + 2*time.Second, -300 * time.Millisecond, -iv - 300*time.Millisecond, -iv / 2}
 		if !vrt.Thorough() {
-			offs = []time.Duration{0, iv - 1, iv + 2*time.Second}
+			offs = []time.Duration{0, iv - 1, iv + 2*time.Second, -300 * time.Millisecond, -iv - 300*time.Millisecond}
 		}
 		for _, off := range offs {
 			for _, st := range starts {
